@@ -418,7 +418,12 @@ func (eng *Engine) initIntrinsics() {
 	in["strconv.AppendQuote"] = func(ex *Exec, _ *frame, _ *ssa.Function, a []Value) Value { return a[0] }
 
 	eng.initVrt()
+	for _, f := range extraIntrinsics {
+		f(eng)
+	}
 }
+
+var extraIntrinsics []func(*Engine)
 
 func mul64(x, y uint64) (hi, lo uint64) {
 	const mask32 = 1<<32 - 1
